@@ -63,9 +63,10 @@ TTLCaps(kind, v) == kind # "http" \/ ~v.has
 EntryLifetimeOK(kind, c, v, entry) ==
   (entry.present /\ c > 0 /\ TTLCaps(kind, v)) => (entry.exp # Inf /\ entry.exp - entry.at <= c)
 
-(* TTL 0 => nothing stored by that mechanism *)
+(* TTL 0 => nothing stored by that mechanism; a negative one cannot mean more ("a configured TTL can only *)
+(* shorten these lifetimes")                                                                              *)
 ZeroTTLOK(kind, c, v, entry) ==
-  (c = 0 /\ TTLCaps(kind, v)) => ~entry.present
+  (c # Unset /\ c <= 0 /\ TTLCaps(kind, v)) => ~entry.present
 
 (* the entry must not outlive the validity (+ leeway) of what it holds *)
 EntryWithinValidity(kind, lam, v, entry, slack) ==
@@ -105,8 +106,8 @@ Store(ttl) == [store |-> TRUE, ttl |-> ttl]
 TTLRule(mutant, kind, c, dflt, v, now, margin) ==
   LET cc == IF c = Unset THEN dflt ELSE c
       rem == v.at - now - margin
-      zero == c = 0 /\ mutant # "ignore_zero"
-      c2 == IF c = 0 THEN dflt ELSE cc          \* what "ignore_zero" falls back to
+      zero == c # Unset /\ c <= 0 /\ mutant # "ignore_zero"
+      c2 == IF c # Unset /\ c <= 0 THEN dflt ELSE cc          \* what "ignore_zero" falls back to
   IN
   IF kind = "http" THEN
        IF v.has THEN
